@@ -1,17 +1,22 @@
 #!/bin/bash
 # Builds the simulation binaries from /repo's current working tree.
-# usage: build.sh [target...]   (targets: world orch comp race; default: world orch comp)
+# usage: build.sh [target...]   (targets: world cgo orch comp race; default: world cgo orch comp)
 set -euo pipefail
 V=/verif
 W=$V/.work
 export GOFLAGS=-mod=mod GOPROXY=off GOSUMDB=off GOTOOLCHAIN=local
 "$V/bin/prepare.sh"
 cd "$V/sim"
-targets="${*:-world orch comp}"
+targets="${*:-world cgo orch comp}"
 for t in $targets; do
   case $t in
     world)
-      go1.26.8 test -c -tags verif -overlay "$W/overlay/overlay.json" -o "$W/bin/world.test" ./world ;;
+      # CGO off: base/compress/zstd then uses the pure-Go klauspost codec. With cgo it uses
+      # DataDog/zstd v1.4.1, whose buffer-less streaming writer corrupts streams when the
+      # caller reuses its write buffer (as encoding/gob does); see DESIGN.md and known_findings.txt.
+      CGO_ENABLED=0 go1.26.8 test -c -tags verif -overlay "$W/overlay/overlay.json" -o "$W/bin/world.test" ./world ;;
+    cgo)
+      CGO_ENABLED=1 go1.26.8 test -c -tags verif -overlay "$W/overlay/overlay.json" -o "$W/bin/world.cgo.test" ./world ;;
     race)
       go1.26.8 test -c -race -gcflags=all=-d=checkptr=0 -tags verif -overlay "$W/overlay/overlay.json" -o "$W/bin/world.race.test" ./world ;;
     orch)
